@@ -68,3 +68,24 @@ Example c19_ex_lost_output_rejected :
       ERestore {| v_id := C01.a; v_status := Submitted; v_held := false; v_queued := false; v_runahead := true;
                   v_flows := [1%nat]; v_sat := []; v_outs := []; v_sn := 1%nat; v_fsat := [] |} ] = Some (13%nat, 222%nat).
 Proof. vm_compute. reflexivity. Qed.
+
+(* Broadcasts.  The broadcast settings in force are an opaque identifier in the
+   automaton (the harness interns the canonical table).  At the end of every
+   accepted iteration the database holds exactly the settings in force ... *)
+Theorem c19_database_holds_broadcasts : forall c s n s',
+  step c s (EBcastDb n) = Ok s' -> n = bcast s /\ s' = s.
+Proof. exact bcast_db_agrees. Qed.
+
+(* ... nothing but a broadcast event changes them ... *)
+Theorem c19_broadcasts_frame : forall c tr s s',
+  exec c s tr = Some s' ->
+  (forall n, ~ In (EBcast n) tr) -> (forall n, ~ In (EBcastLoaded n) tr) -> bcast s' = bcast s.
+Proof. exact bcast_frame. Qed.
+
+(* ... so what an accepted (clean) restart loads is what was in force before
+   the stop, however long the stop/restart stretch of events is. *)
+Theorem c19_restart_gives_broadcasts_back : forall c tr s0 s1 n s2,
+  exec c s0 tr = Some s1 -> step c s1 (EBcastLoaded n) = Ok s2 -> crash_mode s1 = false ->
+  (forall m, ~ In (EBcast m) tr) -> (forall m, ~ In (EBcastLoaded m) tr) ->
+  n = bcast s0 /\ bcast s2 = bcast s0.
+Proof. exact restart_gives_broadcasts_back. Qed.
